@@ -48,8 +48,11 @@ OPEN_TITLES = {k: v[2] for k, v in PINNED.items()}
 FIXED_COMMITS = {"K-catch-pop": "790993c", "K-stale-error-ip-a": "4f459d5", "K-stale-error-ip-b": "4f459d5"}
 
 # ---- other properties: (property, id, status, commit, title, scenario dict)
-from sim.props import c09, c15, c12, c01
+from sim.props import c09, c15, c12, c01, c16
 OTHER = [
+ ("C16", "K-finished-fiber-retains-closure", "fixed", "75f1d95",
+  "a fiber that ran to completion kept its body closure, captured variables and call argument alive through its untouched value stack: a chain of fibers each holding its predecessor grew without bound although only two were reachable",
+  {"ir": {"body": [["fiber_daisy_chain", None]], "n": 75, "sites": 0, "slots": [11], "spikes": []}, "faults": {}}),
  ("C15", "K-captured-variable-freed-after-failed-run", "fixed", "260f9f2",
   "a closure stored in a global over a heap-valued local of a run that then failed read a stack slot the collector no longer traced: use after free in a later snippet (SIGSEGV in checked builds)",
   {"ir": {"session": [["snip", [["capcrash", 1, "s1", 1]]], ["snip", [["callcap", 1, 2]]]], "sites": 1, "mod_sites": {}}, "faults": {"s1": {"1": "RuntimeError"}}, "force_gc_slice": True}),
@@ -103,7 +106,7 @@ def main():
         else:
             entries.append({"id": name, "property": "C08", "status": "fixed", "commit": FIXED_COMMITS[name], "title": title,
                             "scenario": "findings/C08/%s.json" % name, "record": "fixed: property=C08 %s %s" % (FIXED_COMMITS[name], title)})
-    props = {"C09": c09.PROP, "C15": c15.PROP, "C12": c12.PROP, "C01": c01.PROP}
+    props = {"C09": c09.PROP, "C15": c15.PROP, "C12": c12.PROP, "C01": c01.PROP, "C16": c16.PROP}
     for pid, name, status, commit, title, sc in OTHER:
         d = os.path.join(build.ROOT, "findings", pid)
         os.makedirs(d, exist_ok=True)
